@@ -343,8 +343,12 @@ def f1_round_to_odd(ctx: Ctx):
             if cn in ('gmp.context', 'gmp.local_context', 'gmp.set_context', 'gmp.get_context', 'gmpy2.context',
                       'gmpy2.set_context', 'gmpy2.local_context', 'gmpy2.get_context'):
                 inside = rel == GMPUTILS and any(k is x for x in calls_in(fn))
-                ctx.check(inside and cn == 'gmp.context', rel, k, rel, norm(k)[:70],
-                          'MPFR context entered or modified outside _mpfr_call_with_prec')
+                # the conversion of an operand enters one of its own: it fixes the exponent range only (an operand is
+                # exact: it carries its own precision and no rounding happens), see g2_mpfr_context
+                conv = rel == GMPUTILS and repo.has_func(GMPUTILS, 'float_to_mpfr') and any(k is x for x in calls_in(repo.func(GMPUTILS, 'float_to_mpfr'))) \
+                    and not ({kw.arg for kw in k.keywords} & {'precision', 'round'})
+                ctx.check((inside or conv) and cn == 'gmp.context', rel, k, rel, norm(k)[:70],
+                          'MPFR context entered or modified outside _mpfr_call_with_prec / float_to_mpfr')
     # (b) every precision handed to it carries two guard digits (or is the exponent probe)
     mc = ctx.fn(GMPUTILS, 'mpfr_call')
     cfg = CFG(mc)
@@ -939,6 +943,97 @@ def g1_helper_methods(ctx: Ctx):
     last = caller.body[-1]
     good = isinstance(last, ast.Return) and norm(last.value) == 'self._fdim(x, y, prec, n)'
     ctx.check(good, GMP, last, 'MPFREngine.fdim', 'fdim hands the helper the target (prec, n)', f'got {norm(last)}')
+
+
+# ----------------------------------------------------------------------
+# MPFR is only driven under a context the library sets (C03 / C18)
+
+_CONTEXT_FREE = {'context', 'get_emin_min', 'get_emax_max', 'get_exp', 'nan', 'inf', 'set_sign', 'get_context', 'local_context'}
+
+
+def g2_mpfr_context(ctx: Ctx):
+    """gmpy2 computes under a thread-wide current context: precision, rounding mode and exponent range are ambient
+    state that the caller of the library may have set to anything.  A result "depends only on the function, the
+    arguments and the context" only if every MPFR value is built and every MPFR operation run under a context fpy2 sets
+    itself.  (a) in gmputils, every value-building gmpy2 call sits inside `with gmp.context(..)` that sets the exponent
+    range to MPFR's own limits and disables traps; the evaluation context also pins precision and RoundToZero; (b) in
+    the MPFR engine, every gmpy2 operation sits in a callable that is only ever handed to the round-to-odd wrapper."""
+    mod = ctx.repo.module(GMPUTILS)
+    parents: dict[int, ast.AST] = {}
+    for p in ast.walk(mod.tree):
+        for c in ast.iter_child_nodes(p):
+            parents[id(c)] = p
+
+    def controlled(node: ast.AST) -> ast.With | None:
+        cur = node
+        while id(cur) in parents:
+            cur = parents[id(cur)]
+            if isinstance(cur, ast.With):
+                for it in cur.items:
+                    k = it.context_expr
+                    if isinstance(k, ast.Call) and call_name(k) == 'gmp.context':
+                        kw = {x.arg: norm(x.value) for x in k.keywords}
+                        if kw.get('emin') == 'MPFR_EMIN' and kw.get('emax') == 'MPFR_EMAX' and all(kw.get(t) == 'False' for t in ('trap_underflow', 'trap_overflow', 'trap_inexact', 'trap_divzero')):
+                            return cur
+        return None
+    n = 0
+    for k in [x for x in ast.walk(mod.tree) if isinstance(x, ast.Call)]:
+        cn = call_name(k) or ''
+        if not cn.startswith('gmp.') or cn[4:] in _CONTEXT_FREE:
+            continue
+        n += 1
+        w = controlled(k)
+        # calls made through a parameter (`fn(*args)`) are judged where the callable is built
+        ctx.check(w is not None, GMPUTILS, k, 'gmputils', f'`{norm(k)[:50]}` runs under a context that fixes the exponent range and disables traps',
+                  'the value is built under the caller\'s gmpy2 context: its exponent range, precision and traps change the operand (sqrt(2**40) is +inf after gmpy2.get_context().emax = 10)')
+    fn = ctx.fn(GMPUTILS, '_mpfr_call_with_prec')
+    withs = [s for s in walk_no_nested(fn) if isinstance(s, ast.With)]
+    ok = False
+    if len(withs) == 1 and isinstance(withs[0].items[0].context_expr, ast.Call):
+        kw = {x.arg: norm(x.value) for x in withs[0].items[0].context_expr.keywords}
+        ok = kw.get('precision') == 'prec' and kw.get('round') == 'gmp.RoundToZero' and kw.get('emin') == 'MPFR_EMIN' and kw.get('emax') == 'MPFR_EMAX' \
+            and [norm(s) for s in withs[0].body] == ['return fn(*args)']
+    ctx.check(ok, GMPUTILS, fn, '_mpfr_call_with_prec', 'the operation itself runs with precision, rounding mode and exponent range all set', 'evaluation context changed')
+    lim = {dotted(s.targets[0]): norm(s.value) for s in mod.tree.body if isinstance(s, ast.Assign)}
+    ctx.check(lim.get('MPFR_EMIN') == 'gmp.get_emin_min()' and lim.get('MPFR_EMAX') == 'gmp.get_emax_max()', GMPUTILS, mod.tree, 'gmputils', 'the range is MPFR\'s widest', f'{lim.get("MPFR_EMIN")}, {lim.get("MPFR_EMAX")}')
+    # (b) the engine
+    em = ctx.repo.module(GMP)
+    eparents: dict[int, ast.AST] = {}
+    for p in ast.walk(em.tree):
+        for c in ast.iter_child_nodes(p):
+            eparents[id(c)] = p
+    handed = set()
+    for k in [x for x in ast.walk(em.tree) if isinstance(x, ast.Call)]:
+        if call_name(k) in ('_mpfr_eval', 'mpfr_call') and k.args and isinstance(k.args[0], ast.Name):
+            handed.add(k.args[0].id)
+    table_lambdas = set()
+    for s in em.tree.body:
+        v = getattr(s, 'value', None)
+        if isinstance(v, ast.Dict) and any(isinstance(x, ast.Lambda) for x in v.values):
+            tgt = dotted(s.target) if isinstance(s, ast.AnnAssign) else dotted(s.targets[0])
+            users = [c for c in ast.walk(em.tree) if isinstance(c, ast.Call) and call_name(c) == 'mpfr_call' and c.args and isinstance(c.args[0], ast.Name)]
+            fed = any(isinstance(a, ast.Assign) and isinstance(a.value, ast.Subscript) and dotted(a.value.value) == tgt and any(dotted(t) == u.args[0].id for t in a.targets for u in users)
+                      for a in ast.walk(em.tree))
+            if fed:
+                table_lambdas |= {id(x) for x in v.values if isinstance(x, ast.Lambda)}
+    m = 0
+    for k in [x for x in ast.walk(em.tree) if isinstance(x, ast.Call)]:
+        cn = call_name(k) or ''
+        if not cn.startswith('gmp.') or cn[4:] in _CONTEXT_FREE:
+            continue
+        m += 1
+        cur: ast.AST = k
+        holder = None
+        while id(cur) in eparents:
+            cur = eparents[id(cur)]
+            if isinstance(cur, (ast.Lambda, ast.FunctionDef)):
+                holder = cur
+                break
+        ok = holder is not None and ((isinstance(holder, ast.FunctionDef) and holder.name in handed) or id(holder) in table_lambdas)
+        ctx.check(ok, GMP, k, getattr(holder, 'name', '<lambda>') if holder is not None else '<module>', f'`{norm(k)[:40]}` is reached only through the round-to-odd wrapper',
+                  'a gmpy2 operation run directly computes under the caller\'s precision and rounding mode')
+    if n < 1 or m < 10:
+        raise ShapeError(f'only {n} + {m} gmpy2 calls found')
 
 
 # ----------------------------------------------------------------------
